@@ -654,3 +654,70 @@ def _shifted_real(pb, a, k):
 
 
 lemma("C10.displaced-piece-rejected", _shifted_time_body, _spec_reject, inst_shifted(), ("C10",), real=_shifted_real)
+
+
+# --------------------------------------------------------------------------- signal_transform (C09, C16)
+from pyvc.interp import Stub as _Stub, ClassRef as _ClassRef
+
+
+def _array_func():
+    """An arbitrary array function F(x, **kwargs): uninterpreted, same result for equal inputs."""
+    def F(ctx, x, **kw):
+        return ctx_interp[0].stubs.opaque_generic(ctx, "userfunc", x, (), kw)
+    return _Stub(F, "userfunc")
+
+
+ctx_interp = [None]
+
+
+def _st_body(interp, ctx, a, k):
+    ctx_interp[0] = interp
+    z, F = a
+    deco = interp.funcval_for("pulsarbat.transforms.transforms.signal_transform")
+    wrapper = interp.call_function(deco, (F,), {}, ctx)
+    return interp.call(wrapper, (z,), dict(k), ctx)
+
+
+def spec_signal_transform(c, z, F, signal_type=None, signal_kwargs=None, dask_kwargs=None, **kwargs):
+    """func applied to the data (block-wise and lazily for Dask data), wrapped like the input signal
+    (or as signal_type with signal_kwargs overriding attributes)."""
+    ctx_interp[0] = c.interp
+    g = c.view(z)
+    cls = g.cls if signal_type is None else signal_type
+    if signal_type is not None:
+        if not isinstance(signal_type, _ClassRef):
+            raise PyExc("TypeError", "signal_type must be a class")
+        if not signal_type.ci.is_subclass(clsinfo(c, "Signal")):
+            raise PyExc("TypeError", "Signal type must be a subclass of pulsarbat.Signal")
+        cls = signal_type.ci
+    d = g.data
+    r = c.interp.call(F, (SArr(d.shape, d.elem, d.dtype, "numpy"),), dict(kwargs), c.ctx)
+    r = SArr(r.shape, r.elem, r.dtype, d.backend)
+    from contracts.core import spec_like_core
+    return spec_like_core(c, cls, z, r, dict(signal_kwargs or {}))
+
+
+def inst_signal_transform():
+    out = []
+    for cls in ("Signal", "BasebandSignal"):
+        for be in ("numpy", "dask"):
+            for variant in ("plain", "kwargs", "signal_type", "signal_kwargs", "bad-signal-type"):
+                def build(interp, ctx, nm, cls=cls, be=be, variant=variant):
+                    z = mk_signal(interp, ctx, "z", cls, backend=be, nm=nm)
+                    kw = {}
+                    if variant == "kwargs":
+                        kw["size"] = 5
+                    if variant == "signal_type":
+                        kw["signal_type"] = _ClassRef(interp.repo.get_class("pulsarbat.core.Signal"))
+                    if variant == "signal_kwargs":
+                        kw["signal_kwargs"] = {"start_time": None}
+                    if variant == "bad-signal-type":
+                        kw["signal_type"] = interp.stubs.types["dict"]
+                    return (z, _array_func()), kw
+                out.append(Instance(f"{cls},{be},{variant}", build))
+    return out
+
+
+_stc = Contract("pulsarbat.transforms.transforms.signal_transform", spec_signal_transform, inst_signal_transform(), props=("C09", "C16"), body=_st_body)
+_stc.no_bounded = True
+CONTRACTS.append(_stc)
